@@ -667,7 +667,7 @@ def replay_scenario(payload):
     max_steps = nyield + 3
     ri = Run(scen, model, sync=False)
     rr = Run(scen, model, sync=True)
-    ri.items_awaitable = rr.items_awaitable = bool((payload.get("opts") or {}).get("val_protocols", {}).get("__await__"))
+    ri.items_awaitable = rr.items_awaitable = bool(((payload.get("opts") or {}).get("val_protocols") or {}).get("__await__"))
     ia = build_args(ri, payload["args"]["iargs"])
     ik = {k: build_arg(ri, v) for k, v in payload["args"].get("ikw", {}).items()}
     ra = build_args(rr, payload["args"]["rargs"])
@@ -727,7 +727,11 @@ def main():
     if "--scenario" in sys.argv:
         payload = json.load(sys.stdin)
         sys.path.insert(0, payload.get("repo", "/repo"))
-        res = replay_scenario(payload)
+        try:
+            res = replay_scenario(payload)
+        except Exception:
+            import traceback
+            res = {"confirmed": False, "error": "native harness crashed: " + traceback.format_exc()[-1500:]}
         print(json.dumps(res, default=str))
         sys.exit(1 if res["confirmed"] else 0)
     print("usage: native.py --scenario -")
